@@ -144,10 +144,7 @@ class BaseCollection(BaseDisplayRepr):
     def children(self, children):
         """Set Collection children."""
         # pylint: disable=protected-access
-        for child in self._children:
-            child._parent = None
-        self._children = []
-        self.add(*children, override_parent=True)
+        self._replace_children(self._children, children)
 
     @property
     def children_all(self):
@@ -163,15 +160,8 @@ class BaseCollection(BaseDisplayRepr):
     def sources(self, sources):
         """Set Collection sources."""
         # pylint: disable=protected-access
-        new_children = []
-        for child in self._children:
-            if child in self._sources:
-                child._parent = None
-            else:
-                new_children.append(child)
-        self._children = new_children
         src_list = format_obj_input(sources, allow="sources")
-        self.add(*src_list, override_parent=True)
+        self._replace_children(self._sources, src_list)
 
     @property
     def sources_all(self):
@@ -187,15 +177,8 @@ class BaseCollection(BaseDisplayRepr):
     def sensors(self, sensors):
         """Set Collection sensors."""
         # pylint: disable=protected-access
-        new_children = []
-        for child in self._children:
-            if child in self._sensors:
-                child._parent = None
-            else:
-                new_children.append(child)
-        self._children = new_children
         sens_list = format_obj_input(sensors, allow="sensors")
-        self.add(*sens_list, override_parent=True)
+        self._replace_children(self._sensors, sens_list)
 
     @property
     def sensors_all(self):
@@ -211,15 +194,8 @@ class BaseCollection(BaseDisplayRepr):
     def collections(self, collections):
         """Set Collection collections."""
         # pylint: disable=protected-access
-        new_children = []
-        for child in self._children:
-            if child in self._collections:
-                child._parent = None
-            else:
-                new_children.append(child)
-        self._children = new_children
         coll_list = format_obj_input(collections, allow="collections")
-        self.add(*coll_list, override_parent=True)
+        self._replace_children(self._collections, coll_list)
 
     @property
     def collections_all(self):
@@ -319,15 +295,34 @@ class BaseCollection(BaseDisplayRepr):
         if len(children) == 1 and isinstance(children[0], (list, tuple)):
             children = children[0]
 
-        # check and format input
+        # check and format input (nothing is changed if any input is rejected)
+        obj_list = self._check_add_input(children, override_parent)
+
+        # assign parent
+        for obj in obj_list:
+            if obj._parent is not None:
+                obj._parent.remove(obj)
+            obj._parent = self
+
+        # set attributes
+        self._children += obj_list
+        self._update_src_and_sens()
+
+        return self
+
+    def _check_add_input(self, children, override_parent):
+        """returns the list of objects to add, raises if any of them cannot be added"""
+        # pylint: disable=protected-access
         obj_list = check_format_input_obj(
             children,
             allow="sensors+sources+collections",
             recursive=False,
             typechecks=True,
         )
-
-        # assign parent
+        # an object given several times is added once
+        obj_list = [
+            obj for i, obj in enumerate(obj_list) if not any(obj is o for o in obj_list[:i])
+        ]
         for obj in obj_list:
             if isinstance(obj, Collection):
                 # no need to check recursively with `collections_all` if obj is already self
@@ -335,22 +330,27 @@ class BaseCollection(BaseDisplayRepr):
                     raise MagpylibBadUserInput(
                         f"Cannot add {obj!r} because a Collection must not reference itself."
                     )
-            if obj._parent is None:
-                obj._parent = self
-            elif override_parent:
-                obj._parent.remove(obj)
-                obj._parent = self
-            else:
+            if obj._parent is not None and not override_parent:
                 raise MagpylibBadUserInput(
                     f"Cannot add {obj!r} to {self!r} because it already has a parent.\n"
                     "Consider using `override_parent=True`."
                 )
+        return obj_list
 
-        # set attributes
-        self._children += obj_list
+    def _replace_children(self, old_children, new_children):
+        """replace `old_children` by `new_children`, which are validated first"""
+        # pylint: disable=protected-access
+        new_children = self._check_add_input(new_children, override_parent=True)
+        old_children = list(old_children)
+        for child in old_children:
+            child._parent = None
+        self._children = [
+            child
+            for child in self._children
+            if not any(child is old for old in old_children)
+        ]
         self._update_src_and_sens()
-
-        return self
+        self.add(*new_children, override_parent=True)
 
     def _update_src_and_sens(self):
         """updates sources, sensors and collections attributes from children"""
@@ -415,12 +415,13 @@ class BaseCollection(BaseDisplayRepr):
             recursive=False,
             typechecks=True,
         )
-        self_objects = check_format_input_obj(
-            self,
-            allow="sensors+sources+collections",
-            recursive=recursive,
-        )
         for child in remove_objects:
+            # a previously removed collection takes its children with it
+            self_objects = check_format_input_obj(
+                self,
+                allow="sensors+sources+collections",
+                recursive=recursive,
+            )
             if child in self_objects:
                 rec_obj_remover(self, child)
                 child._parent = None
